@@ -31,8 +31,8 @@ Univs(m) ==
 Colon == <<58>>
 NameOf(m) == CASE m = "text" -> B_text [] m = "numeric" -> B_numeric [] m = "contextual" -> B_contextual
                [] m = "date" -> B_date [] m = "value" -> B_value
-SortsOf(m) == {NameOf(m), NameOf(m) \o Colon \o B_desc, NameOf(m) \o Colon \o B_reverse,
-               UpperASCII(NameOf(m)) \o Colon \o B_asc}
+SortsOf(m) == {NameOf(m), NameOf(m) \o Colon \o B_reverse, UpperASCII(NameOf(m)) \o Colon \o B_asc}
+              \cup (IF Big THEN {} ELSE {NameOf(m) \o Colon \o B_desc})
               \cup (IF m = "contextual" THEN {B_context \o Colon \o B_rev} ELSE {})
 MaxPool == 4
 Vals == {0, 1, 2, 7}
